@@ -59,6 +59,14 @@ impl Header {
     pub fn into_request_parts(
         self,
     ) -> Result<(Method, Uri, Option<Protocol>, HeaderMap), HeaderError> {
+        // Pseudo-header fields defined for responses must not appear in requests
+        // (RFC 9114 section 4.3): such a request is malformed.
+        if self.pseudo.status.is_some() {
+            return Err(HeaderError::InvalidHeaderName(
+                "response pseudo-header field in request".into(),
+            ));
+        }
+
         let mut uri = Uri::builder();
 
         if let Some(path) = self.pseudo.path {
@@ -116,6 +124,19 @@ impl Header {
     }
 
     pub fn into_response_parts(self) -> Result<(StatusCode, HeaderMap), HeaderError> {
+        // Pseudo-header fields defined for requests must not appear in responses
+        // (RFC 9114 section 4.3): such a response is malformed.
+        if self.pseudo.method.is_some()
+            || self.pseudo.scheme.is_some()
+            || self.pseudo.authority.is_some()
+            || self.pseudo.path.is_some()
+            || self.pseudo.protocol.is_some()
+        {
+            return Err(HeaderError::InvalidHeaderName(
+                "request pseudo-header field in response".into(),
+            ));
+        }
+
         //= https://www.rfc-editor.org/rfc/rfc9114#section-4.3.2
         //= type=implication
         //# For responses, a single ":status" pseudo-header field is defined that
